@@ -48,7 +48,10 @@ type plan struct {
 	// combination; documents above fullOps get every combination only when sideAllLarge,
 	// otherwise a thin slice
 	side, sideLarge []config
-	sideAllLarge    bool
+	// ResponseHeaders spelling settings (rhSpellingAlphabet) for executing carriers on the standard
+	// documents: up to fullOps operations / above
+	spellSmall, spellLarge []config
+	sideAllLarge           bool
 	// thorough: product for the plain HEAD / OPTIONS / PUT carriers, which no Accept value can
 	// make execute anything (nil = the non-executing products above)
 	inert       []config
@@ -80,6 +83,7 @@ func makePlan(tier string) plan {
 			hist: product(acceptSingles[:4], []string{"nil", "ct-gr"}, orderAlphabet), histAllShapesLarge: true,
 			oddSmall: product(acceptSingles[:4], rhAlphabet, orderAlphabet), oddLarge: product(acceptSingles[:4], rhAlphabet, orderAlphabet), oddAllLarge: true,
 			side: product(acceptSingles[:4], []string{"nil", "ct-gr"}, []string{"default"}), sideAllLarge: true,
+			spellSmall: product(acceptSingles[:4], rhSpellingAlphabet, orderAlphabet), spellLarge: product(acceptSingles[:4], rhSpellingAlphabet, orderAlphabet),
 			sideLarge: product([]string{"", mtGR}, []string{"nil"}, []string{"default"}), inert: singles,
 			namesExec: singles, namesOther: product([]string{"", mtGR}, []string{"nil", "custom"}, orderAlphabet)}
 	}
@@ -100,7 +104,9 @@ func makePlan(tier string) plan {
 		hist:       product([]string{"", mtGR}, []string{"nil"}, []string{"default"}),
 		oddSmall:   product([]string{"", mtGR}, []string{"nil"}, orderAlphabet),
 		oddLarge:   product([]string{""}, []string{"nil"}, orderAlphabet), relatedNamesReduced: true,
-		side: product([]string{"", mtGR}, []string{"nil"}, []string{"default"})}
+		side:       product([]string{"", mtGR}, []string{"nil"}, []string{"default"}),
+		spellSmall: product([]string{"", mtGR}, rhSpellingAlphabet, []string{"default"}),
+		spellLarge: product([]string{""}, []string{"custom-lower", "ct-gr-lower", "ct-gr-upper", "ct-gr-charset"}, []string{"default"})}
 }
 
 type hit struct {
@@ -243,6 +249,15 @@ func casesFor(d DocSpec, p plan, f func(Case)) {
 			}
 			for _, g := range cs {
 				f(Case{Doc: d, OpName: on, Carrier: car.Name, Accept: g.accept, RH: g.rh, Order: g.order})
+			}
+			if car.Executes && !car.Odd && !car.APQ && d.Names == "" {
+				sp := p.spellSmall
+				if len(d.Ops) > p.fullOps {
+					sp = p.spellLarge
+				}
+				for _, g := range sp {
+					f(Case{Doc: d, OpName: on, Carrier: car.Name, Accept: g.accept, RH: g.rh, Order: g.order})
+				}
 			}
 		}
 	}
@@ -484,6 +499,8 @@ func main() {
 		"accept_values":                   len(acceptAlphabet()),
 		"accept_singles":                  acceptSingles,
 		"response_headers":                rhAlphabet,
+		"response_headers_spelling":       rhSpellingAlphabet,
+		"response_headers_spelling_note":  "pairwise selection: every Content-Type key spelling (canonical, lower, upper) meets every value (application/json, application/graphql-response+json, each with and without charset) at least once across response_headers + response_headers_spelling; not the full spelling x value x extra-header product; sent for executing carriers on the standard documents",
 		"registration_orders":             orderAlphabet,
 		"configs_per_triple": map[string]int{
 			fmt.Sprintf("executing carriers, documents with <=%d operations", p.fullOps):     len(p.execSmall),
@@ -493,10 +510,12 @@ func main() {
 			"APQ carriers":             len(p.apq),
 			"histories":                len(p.hist),
 			"server-side combinations": len(p.side),
-			"server-side combinations, documents with 3 operations (thorough; 0 = n/a)": len(p.sideLarge),
-			"plain HEAD/OPTIONS/PUT (0 = the non-executing products)":                   len(p.inert),
-			fmt.Sprintf("odd carriers, documents with <=%d operations", p.fullOps):      len(p.oddSmall),
-			fmt.Sprintf("odd carriers, documents with >%d operations", p.fullOps):       len(p.oddLarge),
+			fmt.Sprintf("ResponseHeaders spelling settings, documents with <=%d operations", p.fullOps): len(p.spellSmall),
+			fmt.Sprintf("ResponseHeaders spelling settings, documents with >%d operations", p.fullOps):  len(p.spellLarge),
+			"server-side combinations, documents with 3 operations (thorough; 0 = n/a)":                 len(p.sideLarge),
+			"plain HEAD/OPTIONS/PUT (0 = the non-executing products)":                                   len(p.inert),
+			fmt.Sprintf("odd carriers, documents with <=%d operations", p.fullOps):                      len(p.oddSmall),
+			fmt.Sprintf("odd carriers, documents with >%d operations", p.fullOps):                       len(p.oddLarge),
 		},
 		"history_shapes":                                  []string{"twice", "other-carrier-first", "valid-then-invalid-sibling", "invalid-sibling-then-valid"},
 		"history_carriers":                                histCarriers,
